@@ -200,8 +200,15 @@ func (w *World) Step(o HistOpts) string {
 		w.Abandon()
 		w.abs("abandon")
 	case "create":
-		w.logf("Create(again)")
-		if err := w.Create(); err != nil {
+		same := r.Bool()
+		w.logf("Create(again) same-schema-value=%v", same)
+		var err error
+		if same {
+			err = w.CreateSameValue()
+		} else {
+			err = w.Create()
+		}
+		if err != nil {
 			w.fail("create-failed", "Create(again)", "-", err.Error())
 		}
 		clockSettle()
